@@ -1,5 +1,5 @@
 #!/usr/bin/env python3
-"""Regenerate sa/localnames.json: per outermost function of the package, the
+"""Regenerate sa/localnames.json and sa/compares.json: per outermost function of the package, the
 plain locals in order of first binding with a hash of the binding's shape
 (see sa/alpha.py).  Run against the tree the rules were written for.
 
@@ -16,7 +16,8 @@ from sa import alpha  # noqa: E402
 
 root = sys.argv[1] if len(sys.argv) > 1 else '/repo'
 out = {}
-nf = nl = 0
+cmps = {}
+nf = nl = nc = 0
 for dp, dn, fns in os.walk(os.path.join(root, 'asyncssh')):
     dn[:] = sorted(d for d in dn if d != '__pycache__')
     for f in sorted(fns):
@@ -25,6 +26,11 @@ for dp, dn, fns in os.walk(os.path.join(root, 'asyncssh')):
             rel = os.path.relpath(p, root)
             with open(p, encoding='utf-8') as fh:
                 t = alpha.table_of(ast.parse(fh.read()))
+            with open(p, encoding='utf-8') as fh:
+                c = alpha.compares_of(ast.parse(fh.read()))
+            if c:
+                cmps[rel] = c
+                nc += sum(len(v) for v in c.values())
             if t:
                 out[rel] = t
                 nf += len(t)
@@ -32,4 +38,7 @@ for dp, dn, fns in os.walk(os.path.join(root, 'asyncssh')):
 with open(alpha.TABLE, 'w', encoding='utf-8') as fh:
     json.dump(out, fh, indent=0, sort_keys=True)
     fh.write('\n')
-print(f'{nl} locals of {nf} functions in {len(out)} modules')
+with open(alpha.COMPARES, 'w', encoding='utf-8') as fh:
+    json.dump(cmps, fh, indent=0, sort_keys=True)
+    fh.write('\n')
+print(f'{nc} comparisons; {nl} locals of {nf} functions in {len(out)} modules')
